@@ -3,6 +3,7 @@ package c10
 
 import (
 	"bytes"
+	"context"
 	"errors"
 	"fmt"
 	"go/format"
@@ -11,8 +12,10 @@ import (
 	"io"
 	"os"
 	"path/filepath"
+	"strconv"
 	"strings"
 	"sync"
+	"syscall"
 	"testing"
 	"time"
 
@@ -36,6 +39,7 @@ var errInjected = errors.New("injected writer fault")
 type faultWriter struct {
 	failAt  int
 	partial bool
+	err     error // what a failing Write reports (nil: errInjected)
 	calls   int
 	bytes   int
 	buf     bytes.Buffer
@@ -44,13 +48,17 @@ type faultWriter struct {
 func (w *faultWriter) Write(p []byte) (int, error) {
 	w.calls++
 	if w.failAt != 0 && (w.calls == w.failAt || w.failAt < 0) {
+		e := w.err
+		if e == nil {
+			e = errInjected
+		}
 		if w.partial && len(p) > 1 {
 			n := len(p) / 2
 			w.buf.Write(p[:n])
 			w.bytes += n
-			return n, errInjected
+			return n, e
 		}
-		return 0, errInjected
+		return 0, e
 	}
 	w.bytes += len(p)
 	return w.buf.Write(p)
@@ -117,15 +125,28 @@ type writerFault struct {
 	name    string
 	failAt  int
 	partial bool
+	err     error
 }
 
 var writerFaults = []writerFault{
-	{"none", 0, false},
-	{"error on 1st write", 1, false},
-	{"error on 2nd write", 2, false},
-	{"error on 3rd write", 3, false},
-	{"short write + error on 1st write", 1, true},
-	{"every write fails", -1, false},
+	{"none", 0, false, nil},
+	{"error on 1st write", 1, false, nil},
+	{"error on 2nd write", 2, false, nil},
+	{"error on 3rd write", 3, false, nil},
+	{"short write + error on 1st write", 1, true, nil},
+	{"every write fails", -1, false, nil},
+	// the errors real writers report when whoever reads them has gone, the disk is full, the file was closed,
+	// the request was cancelled: errors like any other
+	{"EPIPE on 1st write", 1, false, syscall.EPIPE},
+	{"io.ErrClosedPipe on 1st write", 1, false, io.ErrClosedPipe},
+	{"*os.PathError{write |1: EPIPE} on 1st write", 1, false, &os.PathError{Op: "write", Path: "|1", Err: syscall.EPIPE}},
+	{"wrapped io.ErrClosedPipe + short write on 1st write", 1, true, fmt.Errorf("response body: %w", io.ErrClosedPipe)},
+	{"io.EOF on 1st write", 1, false, io.EOF},
+	{"io.ErrShortWrite on 1st write", 1, true, io.ErrShortWrite},
+	{"context.Canceled on 1st write", 1, false, context.Canceled},
+	{"os.ErrClosed on 1st write", 1, false, os.ErrClosed},
+	{"ENOSPC on 1st write", 1, true, &os.PathError{Op: "write", Path: "/mnt/full/out.go", Err: syscall.ENOSPC}},
+	{"ECONNRESET on 1st write", 1, false, syscall.ECONNRESET},
 }
 
 var (
@@ -294,7 +315,7 @@ func check(c Case) error {
 			cell(entry, "none (writer renders other code inside Write)", true)
 		}
 		for _, wf := range writerFaults {
-			w := &faultWriter{failAt: wf.failAt, partial: wf.partial}
+			w := &faultWriter{failAt: wf.failAt, partial: wf.partial, err: wf.err}
 			err := tg.render(w)
 			cell(entry, wf.name, okErr == nil)
 			switch {
@@ -339,6 +360,84 @@ func check(c Case) error {
 		}
 		if entry == "File.Render" && okErr == nil && !bytes.Equal(okw.buf.Bytes(), refBuf.Bytes()) {
 			return fmt.Errorf("File.Render wrote %q into the instrumented writer, %q into a bytes.Buffer", okw.buf.Bytes(), refBuf.Bytes())
+		}
+	}
+
+	// real pipes whose reading end has gone: the write fails (io.ErrClosedPipe, EPIPE) and the caller hears of it
+	for _, tg := range targets {
+		okw := &faultWriter{}
+		if tg.render(okw) != nil || okw.bytes == 0 {
+			continue
+		}
+		entry := tg.name[:strings.IndexAny(tg.name+"[", "[")]
+		pr, pw := io.Pipe()
+		pr.Close()
+		if err := tg.render(pw); err == nil {
+			return fmt.Errorf("%s into the writing end of an io.Pipe whose reader is closed (every Write fails with %v) returned nil", tg.name, io.ErrClosedPipe)
+		}
+		pw.Close()
+		cell(entry, "io.Pipe, reader closed", true)
+		if r, w, err := os.Pipe(); err == nil {
+			r.Close()
+			rerr := tg.render(w)
+			w.Close()
+			if rerr == nil {
+				return fmt.Errorf("%s into the writing end of an os.Pipe whose reading end is closed (the write fails with EPIPE) returned nil", tg.name)
+			}
+			cell(entry, "os.Pipe, reading end closed", true)
+		}
+	}
+
+	// rendering that fails with a panic (a literal of an unsupported type, a Dict next to other items in
+	// Values: documented panics, raised while rendering) after other items have been rendered: a caller
+	// that recovers finds its writer as it was
+	for i, n := range c.File.Body {
+		if n == nil || n.Kind != recipe.KStmt || i > 1 {
+			continue
+		}
+		n := n
+		for vi, breaker := range []func() jen.Code{
+			func() jen.Code { return jen.Id("tail").Op("=").Lit(struct{ A int }{7}) },
+			func() jen.Code { return jen.Id("T").Values(jen.Dict{jen.Id("a"): jen.Lit(1)}, jen.Id("extra")) },
+		} {
+			mk := func() *jen.Statement {
+				return jen.Func().Id("_").Params().Block((&recipe.Builder{}).Stmt(n), jen.Id("mid").Call(), breaker())
+			}
+			entries := map[string]func(w io.Writer) error{
+				"Statement.Render":         func(w io.Writer) error { return mk().Render(w) },
+				"Statement.RenderWithFile": func(w io.Writer) error { f, _ := build(); return mk().RenderWithFile(w, f) },
+				"Group.Render": func(w io.Writer) error {
+					var g *jen.Group
+					jen.BlockFunc(func(x *jen.Group) { g = x; x.Add(mk()) })
+					return g.Render(w)
+				},
+				"File.Render": func(w io.Writer) error { f, _ := build(); f.Add(mk()); return f.Render(w) },
+			}
+			for name, call := range entries {
+				for _, kind := range []string{"*bytes.Buffer", "faultWriter"} {
+					buf := bytes.NewBufferString("PRIOR CONTENT\n")
+					fw := &faultWriter{}
+					var err error
+					perr := hx.Safe(func() error {
+						if kind == "faultWriter" {
+							err = call(fw)
+						} else {
+							err = call(buf)
+						}
+						return nil
+					})
+					cell(name, "render panics (variant "+strconv.Itoa(vi)+"), "+kind, false)
+					if perr == nil && err == nil {
+						continue // (a library that renders such a tree is none of this check's business)
+					}
+					if buf.String() != "PRIOR CONTENT\n" {
+						return fmt.Errorf("%s of body item %d followed by an item whose rendering panics (variant %d): the call failed (panic: %v, error: %v) but the caller's *bytes.Buffer, which held %q, now holds %q", name, i, vi, perr != nil, firstLine(err), "PRIOR CONTENT\n", buf.String())
+					}
+					if fw.calls != 0 {
+						return fmt.Errorf("%s of body item %d followed by an item whose rendering panics (variant %d): the call failed (panic: %v) but the writer received %d Write calls (%d bytes)", name, i, vi, perr != nil, fw.calls, fw.bytes)
+					}
+				}
+			}
 		}
 	}
 
